@@ -423,6 +423,109 @@ fn run_specials(rep: &mut Report) {
     }
 }
 
+/// Stream writers are independent objects (they hold no borrow of the package): sequences in which a writer
+/// is still alive while other stream calls are made.  Own signatures, one per scenario and outcome class.
+fn run_writer_lifetimes(rep: &mut Report) {
+    fn read_all(p: &mut Pkg, n: &str) -> Result<Vec<u8>, String> {
+        let mut v = Vec::new();
+        p.read_stream(n).map_err(|e| e.to_string())?.read_to_end(&mut v).map_err(|e| e.to_string())?;
+        Ok(v)
+    }
+    type Scen = fn(&mut Pkg) -> Result<Option<String>, String>;
+    let scenarios: [(&str, Scen); 4] = [
+        ("two-live-writers-same-name", |p| {
+            let mut w1 = p.write_stream("A").map_err(|e| e.to_string())?;
+            let mut w2 = p.write_stream("A").map_err(|e| e.to_string())?;
+            // an error from any of these calls is an acceptable answer
+            if w1.write_all(b"first writer data").is_err() || w2.write_all(b"second").is_err() || w1.flush().is_err() || w2.flush().is_err() {
+                return Ok(None);
+            }
+            drop(w1);
+            drop(w2);
+            let got = read_all(p, "A")?;
+            if got != b"first writer data" && got != b"second" {
+                return Ok(Some(format!("stream A reads {:?}, which neither writer wrote", String::from_utf8_lossy(&got))));
+            }
+            Ok(None)
+        }),
+        ("stale-writer-after-remove", |p| {
+            let mut wa = p.write_stream("A").map_err(|e| e.to_string())?;
+            wa.write_all(b"aaaa").map_err(|e| e.to_string())?;
+            wa.flush().map_err(|e| e.to_string())?;
+            p.remove_stream("A").map_err(|e| e.to_string())?;
+            let mut wb = p.write_stream("B").map_err(|e| e.to_string())?;
+            wb.write_all(b"BBBBBB").map_err(|e| e.to_string())?;
+            wb.flush().map_err(|e| e.to_string())?;
+            drop(wb);
+            // the writer of the removed stream is used again: an error is fine, touching B is not
+            let _ = wa.write_all(b"abcdefgh");
+            let _ = wa.flush();
+            drop(wa);
+            let got = read_all(p, "B")?;
+            if got != b"BBBBBB" {
+                return Ok(Some(format!("stream B reads {:?} after a write through the writer of the removed stream A", String::from_utf8_lossy(&got))));
+            }
+            let names: Vec<String> = p.streams().collect();
+            if names != vec!["B".to_string()] {
+                return Ok(Some(format!("streams() = {:?} after A was removed and B written", names)));
+            }
+            Ok(None)
+        }),
+        ("writer-alive-while-another-stream-is-written", |p| {
+            let mut wa = p.write_stream("A").map_err(|e| e.to_string())?;
+            wa.write_all(&[b'a'; 5000]).map_err(|e| e.to_string())?;
+            let mut wb = p.write_stream("B").map_err(|e| e.to_string())?;
+            wb.write_all(&[b'b'; 100]).map_err(|e| e.to_string())?;
+            wb.flush().map_err(|e| e.to_string())?;
+            drop(wb);
+            wa.write_all(&[b'c'; 5000]).map_err(|e| e.to_string())?;
+            wa.flush().map_err(|e| e.to_string())?;
+            drop(wa);
+            let (a, b) = (read_all(p, "A")?, read_all(p, "B")?);
+            let mut want_a = vec![b'a'; 5000];
+            want_a.extend_from_slice(&[b'c'; 5000]);
+            if a != want_a || b != vec![b'b'; 100] {
+                return Ok(Some(format!("A reads {} bytes (want 10000), B reads {} bytes (want 100), or contents differ", a.len(), b.len())));
+            }
+            Ok(None)
+        }),
+        ("writer-alive-across-table-operations", |p| {
+            let mut wa = p.write_stream("A").map_err(|e| e.to_string())?;
+            wa.write_all(&[b'a'; 300]).map_err(|e| e.to_string())?;
+            p.create_table("T", vec![msi::Column::build("K").primary_key().int16(), msi::Column::build("V").nullable().string(0)]).map_err(|e| e.to_string())?;
+            p.insert_rows(msi::Insert::into("T").row(vec![msi::Value::Int(1), msi::Value::from("t0x1 v")])).map_err(|e| e.to_string())?;
+            wa.write_all(&[b'z'; 300]).map_err(|e| e.to_string())?;
+            wa.flush().map_err(|e| e.to_string())?;
+            drop(wa);
+            let a = read_all(p, "A")?;
+            let mut want = vec![b'a'; 300];
+            want.extend_from_slice(&[b'z'; 300]);
+            let rows = p.select_rows(msi::Select::table("T")).map_err(|e| e.to_string())?.count();
+            if a != want || rows != 1 {
+                return Ok(Some(format!("A reads {} bytes (want 600) or contents differ; T has {} rows (want 1)", a.len(), rows)));
+            }
+            Ok(None)
+        }),
+    ];
+    for (name, f) in scenarios {
+        let med = Medium::new();
+        let mut pkg = msi::Package::create(msi::PackageType::Installer, med.handle()).expect("create");
+        let r = guarded(|| f(&mut pkg));
+        rep.count("writer_lifetime_scenarios");
+        rep.case(Some(fnv(format!("writers:{}", name).as_bytes())));
+        let w = json!({"kind": "writer-lifetimes", "name": name});
+        match r {
+            Ok(Ok(None)) => {}
+            Ok(Ok(Some(what))) => rep.violation(format!("C11/writer-lifetimes/{}/content", name), what, w),
+            Ok(Err(e)) => rep.violation(format!("C11/writer-lifetimes/{}/error", name), format!("an ordinary call of the scenario failed: {}", e), w),
+            Err(p) => {
+                std::mem::forget(pkg);
+                rep.violation(format!("C11/writer-lifetimes/{}/panic", name), format!("panic: {} at {}", p.message, p.location), w);
+            }
+        }
+    }
+}
+
 /// remove_digital_signature removes only the signature.
 fn run_signature(rep: &mut Report) {
     let mut b = Bench::new();
@@ -608,6 +711,7 @@ pub fn run(ctx: &Ctx) -> Report {
     if let Some(w) = &ctx.replay {
         let mut rep = Report::new();
         match w["kind"].as_str() {
+            Some("writer-lifetimes") => run_writer_lifetimes(&mut rep),
             Some("batch") => {
                 let names: Vec<String> = w["names"].as_array().map(|a| a.iter().filter_map(|x| x.as_str().map(|s| s.to_string())).collect()).unwrap_or_default();
                 run_batch(&mut rep, &names, w["reverse"].as_bool().unwrap_or(false), w.clone());
@@ -653,6 +757,7 @@ pub fn run(ctx: &Ctx) -> Report {
         if shard == 0 {
             run_specials(&mut rep);
             run_signature(&mut rep);
+            run_writer_lifetimes(&mut rep);
         }
         for (k, b) in batches_ref.iter().enumerate() {
             if k % n != shard {
